@@ -38,15 +38,23 @@ def writer_structure(ctx, py, rule="VCF-WRITE"):
     ctx.ob(rule, "mask-first", ok, m.loc(first_if or lp), "`if self.site_mask[site_id]: continue` precedes every raise and print of the loop body")
     prints = [c for c in ast.walk(lp) if isinstance(c, ast.Call) and call_name(c) == "print" and len(c.args) >= 9]
     ok = len(prints) == 1
+    fields = {}
     if ok:
-        a = [ast.unparse(x) for x in prints[0].args]
-        ok = a == ["self.contig_id", "pos", "site_id", "ref", "alt", "'.'", "'PASS'", "'.'", "'GT'"]
+        a = prints[0].args
+        ok = len(a) == 9 and ast.unparse(a[0]) == "self.contig_id" and [ast.unparse(x) for x in a[5:]] == ["'.'", "'PASS'", "'.'", "'GT'"] \
+            and all(isinstance(x, ast.Name) for x in a[1:5])
+        if ok:
+            fields = dict(zip(("pos", "id", "ref", "alt"), [x.id for x in a[1:5]]))
     ctx.ob(rule, "record-fields", ok, m.loc(prints[0] if prints else lp), "nine fixed fields CHROM POS ID REF ALT QUAL FILTER INFO FORMAT")
+
+    def defs(var):
+        return [ast.unparse(x.value) for x in ast.walk(lp) if isinstance(x, ast.Assign) and any(isinstance(t, ast.Name) and t.id == var for t in x.targets)]
     src = ast.unparse(lp)
-    ctx.ob(rule, "pos", "pos = self.transformed_positions[variant.index]" in src, m.loc(lp), "POS from the transformed position of this variant")
-    ctx.ob(rule, "id", "site_id = variant.site.id" in src, m.loc(lp), "ID is the site id")
-    ctx.ob(rule, "ref", "ref = variant.alleles[0]" in src, m.loc(lp), "REF is alleles[0]")
-    ctx.ob(rule, "alt", "alt = ','.join(variant.alleles[1:variant.num_alleles])" in src and "alt = '.'" in src, m.loc(lp), "ALT lists the remaining alleles or '.'")
+    ctx.ob(rule, "pos", defs(fields.get("pos")) == ["self.transformed_positions[variant.index]"], m.loc(lp), "POS from the transformed position of this variant")
+    ctx.ob(rule, "id", defs(fields.get("id")) == ["variant.site.id"], m.loc(lp), "ID is the site id")
+    ctx.ob(rule, "ref", defs(fields.get("ref")) == ["variant.alleles[0]"], m.loc(lp), "REF is alleles[0]")
+    ctx.ob(rule, "alt", sorted(defs(fields.get("alt"))) == sorted(["'.'", "','.join(variant.alleles[1:variant.num_alleles])"]), m.loc(lp),
+           "ALT lists the remaining alleles or '.'")
     # '.' substitution
     pm = _parents(fn)
     stores = [a for a in ast.walk(lp) if isinstance(a, ast.Assign) and "ord('.')" in ast.unparse(a.value) and "gt_array" in ast.unparse(a.targets[0])]
